@@ -304,6 +304,10 @@ class TradingEnv(gymnasium.Env):
                 "The current episode has ended. To start a new episode use "
                 "TradingEnv.reset()."
             )
+        if self._now is not None:
+            # The clock of contracts is shared by all environments living in
+            # the process. Take it back in case another one has moved it.
+            AbstractContract.now = self._now
         self._queue_actions.appendleft(action)
         action = self._queue_actions.pop()
         self._process_latent_events()
